@@ -62,6 +62,9 @@ def standard(res, translators, prop_mods, streams, level, checker, rule, extra_a
             lines = harness_lines(stream, args, res)
             if lines is not None:
                 L.compare_lines(lines, model_stream, res, stream, ignore_oracle=(len(spec) > 3 and spec[3] == "no-oracle"))
+        post = getattr(res, "post", None)
+        if post:
+            post(res)
     return L.finish(res, level, checker, rule)
 
 
@@ -259,6 +262,21 @@ def check_C11(res, replay):
 
 # ---------------------------------------------------------------------------------------------------- C12
 
+def c12_table_search(res):
+    """Search: which rows of the compiled table differ from the generated one (run on every check; names the failing row
+    when the table-identity theorem breaks)."""
+    rc, out = L.sh([L.MODEL, "table"], timeout=600)
+    if rc != 0:
+        res.broken.append(("correspondence", "table", out[-300:]))
+        return
+    for line in out.splitlines():
+        if line.startswith("MISMATCH "):
+            res.violations.append((f"[table] compiled ATOM_TYPES row {line[9:]} is not what generate_atom_types.py makes of atom_types.txt", "row " + line[9:]))
+        elif line.startswith("rows "):
+            res.stats["table.summary"] = line
+    res.cases += 127
+
+
 def check_C12(res, replay):
     res.trusted = TB_COMMON + ["Mathlib (real analysis for the type-B bend's derivative statements)",
                                "Lean re-expression Model/GenTypes.lean of generate_atom_types.py (valency rules, oxidation state, flags, barrier table, five-decimal theta)",
@@ -268,6 +286,7 @@ def check_C12(res, replay):
                        "table identity: text fields identical, numeric fields equal as exact decimals, theta to the generator's five decimals with the compiled PI / FRAC_PI_2 standing for 3.14159 / 1.57080",
                        "van der Waals 'distance parameter' is read as the type's r column, as theory.tex defines sigma (the x column of the table is not used by the code)"]
     res.exhaustive = True
+    res.post = c12_table_search
     return standard(res, ["tables", "terms", "uff"], ["OptRs.Props.C12"], [("params", [], "params"), ("build", [], "build", "no-oracle")], "proof",
                     "lake build OptRs.Props.C12 (closed forms of the re-translated formulas; type-B minimum/curvature via HasDerivAt; decide +kernel over all 127x14 table fields) + #print axioms audit",
                     "the private parameter methods on pairs of the 127 atom types x orders 1, 1.5, 2, 3 (a quarter of all pairs in quick, all in thorough) and on random triples "
